@@ -42,8 +42,7 @@ Definition show_unit (S : list fact) (u : bytes * kind) : bytes :=
 
 Definition class_of (S : list fact) : bytes :=
   if forallb (unit_coherent_mod S) (units crates S) then
-    if violated S is_gvariant_split then B "gvariant_split"
-    else if violated S is_blocking_split then B "blocking_split"
+    if violated S is_blocking_split then B "blocking_split"
     else dash
   else dash.
 
